@@ -193,10 +193,12 @@ def run(tier, seed, replay=None):
             judge(e, elems, v, {"property": "C04", "schema": s})
         smetas.append((s, vals, "parsed"))
     pm, unmod, perr = sc.run_stream(smetas, tag="c04s") if smetas else ([], 0, None)
-    codes, err = sc.run_ecases(cases, tag="c04")
+    codes, err = sc.eval_codes(["Elem", "Validate", "RunElem"], "run_elem_case_c04", cases, tag="c04", shard=120)
     res.corr_error = err or perr
-    res.corr_mismatches = [{"doc": metas[i], "codes": cs, "what": "Validate.build disagrees with the implementation: 2=verdict class, 3=constructed result"}
-                           for i, cs in sorted((codes or {}).items())]
+    # code 9 = every value of the case satisfies the premise of C04_complete (Retr.safeb, proved sound)
+    stats["theorem_applies"] = {"cases": sum(1 for cs in (codes or {}).values() if 9 in cs), "of": len(cases)}
+    res.corr_mismatches = [{"doc": metas[i], "codes": [c for c in cs if c != 9], "what": "Validate.build disagrees with the implementation: 2=verdict class, 3=constructed result"}
+                           for i, cs in sorted((codes or {}).items()) if any(c != 9 for c in cs)]
     for m in pm:
         if 3 in m["codes"] or 2 in m["codes"]:
             res.corr_mismatches.append({"schema": m["schema"], "values": sc.vals_json(m["ob"]), "codes": m["codes"],
